@@ -486,11 +486,9 @@ where
 			let rps = run_future_until_timeout(self.service.batch(batch_request), self.request_timeout).await?;
 
 			let mut batch_response = Vec::new();
-			let mut success = 0;
-			let mut failed = 0;
 
-			// Fill the batch response with placeholder values.
-			for _ in 0..rps.len() {
+			// Fill the batch response with placeholder values, one per request in the batch.
+			for _ in id_range.clone() {
 				batch_response.push(Err(ErrorObject::borrowed(0, "", None)));
 			}
 
@@ -500,13 +498,9 @@ where
 				let res = match ResponseSuccess::try_from(rp.into_inner()) {
 					Ok(r) => {
 						let v = serde_json::from_str(r.result.get()).map_err(Error::ParseError)?;
-						success += 1;
 						Ok(v)
 					}
-					Err(err) => {
-						failed += 1;
-						Err(err)
-					}
+					Err(err) => Err(err),
 				};
 
 				let maybe_elem = id
@@ -520,6 +514,10 @@ where
 					return Err(InvalidRequestId::NotPendingRequest(id.to_string()).into());
 				}
 			}
+
+			// The counts describe the entries that are returned: an unanswered entry is a failed call.
+			let success = batch_response.iter().filter(|r| r.is_ok()).count();
+			let failed = batch_response.len() - success;
 
 			Ok(BatchResponse::new(success, batch_response, failed))
 		}
